@@ -231,6 +231,15 @@ def run_history(method, n, order):
             d2 = fresh(gen=gen)
             d2(y); d1(y); d1(x); return d2(x)
 
+        def scen_shared_generator_other_object_built_with_step_options(gk):
+            # the generator belongs to the caller: building another object on it, with step options of its own, must leave
+            # it as it is (the options are the other object's business)
+            gen = mk_real_gen(sg, gk)
+            d2 = fresh(gen=gen)
+            f2 = ElementwiseF(mc)
+            core.Derivative(f2, step=gen, method=other_m, n=other_n, order=other_o, num_steps=1, offset=2, base_step=0.25)
+            return d2(x)
+
         def scen_warm_cache(gk):
             for (mm_, nn_, oo_) in [('central', 1, 2), ('forward', 2, 2), ('central', 2, 4), ('complex', 1, 2)]:
                 fresh(method_=mm_, n_=nn_, order_=oo_, gkind=gk)(y)
@@ -525,6 +534,8 @@ def replay_case(ob):
     import re
     if 'content-of-FD_RULES-at-import' in ob['name']:
         return dict(kind='C09.cache0')
+    if '/T:' in ob['name']:
+        return dict(kind='C09.shared')
     mm = re.search(r'\[(\w+),n=(\d+),order=(\d+)\]', ob['name'])
     sc = re.search(r'H:(\w+)\[(\w+)\]', ob['name'])
     c = dict(kind='C09.history')
